@@ -264,6 +264,8 @@ func urlRefString(cls, leaf string) string {
 		return "pix/" + leaf + "?v=1#top"
 	case "reldir":
 		return "sub/" + leaf + "/"
+	case "embedq":
+		return "/out/" + leaf + "?to=https://other.example.org/a&x=1"
 	case "dot":
 		return "./" + leaf
 	case "up1":
